@@ -192,6 +192,45 @@ def slots_positional(ex):
     return True
 
 
+class TreeExec(G.Exec):
+    """`{"member": j, "same": bool, "of": k}`: the Element handed to the call is the j-th member, of the
+    needed class, of the target itself (`same`) or of the k-th sequence of the tree — an element that
+    ALREADY sits in the tree (oracle-only: the Lean tree model has no aliasing)."""
+
+    def mk_arg0(self, target, key, a):
+        if "member" in a:
+            seqs = [c for c in self.containers() if G.is_seq(c)]
+            src = target if a.get("same", True) or not seqs else seqs[a.get("of", 0) % len(seqs)]
+            need = self.needed_schema(target, key)
+            ms = [m for m in src if need is not None and type(m) is need] if G.is_seq(src) else []
+            if not ms:
+                raise G.Skip("nomember")
+            return ("elem", ms[a["member"] % len(ms)])
+        return super().mk_arg0(target, key, a)
+
+
+REJECTED_INDEXES = [9999, -9999, 9999, "1", "0", None, 2.5]
+
+
+def name_path_dup(ex):
+    """two emitted elements on the same NAME path that are not members of one Array / MultiValue"""
+    import flatland
+    seen = {}
+    for e, _ in ex.reach():
+        if not getattr(e, "flattenable", False):
+            continue
+        key = tuple(path_names(e))
+        # the outermost Array/MultiValue above the element owns the shared paths (its members repeat one name path)
+        owner = id(e)
+        for p in ex.parents(e):
+            if isinstance(p, flatland.Array):
+                owner = id(p)
+        if key in seen and seen[key] != owner:
+            return list(key)
+        seen.setdefault(key, owner)
+    return None
+
+
 def tree_view(sep):
     def view(ex, info):
         pairs = [list(p) for p in ex.root.flatten(sep)]
@@ -203,18 +242,37 @@ def tree_view(sep):
 
 def tree_check(sep):
     def check(ex, info):
+        import flatland
         root = ex.root
         fails = []
+        # rejected calls that were handed an element ALREADY in the tree, by the shape of the call (class predicates of
+        # the open findings KF-C07-b / KF-C07-c; everything else that fails is reported)
+        causes = ex.__dict__.setdefault("_c07_causes", [])
+        o = info.get("op") or {}
+        if info.get("raised") is not None and "member" in (o.get("a") or {}):
+            tgt = info.get("target")
+            int_index = isinstance(o.get("i"), int) and not isinstance(o.get("i"), bool)
+            if isinstance(tgt, flatland.List):
+                if o.get("op") == "insert" and not int_index:
+                    causes.append("list-insert-nonint-index-of-member")
+            elif o.get("op") in ("insert", "setitem"):
+                causes.append("array-rejected-placement-of-member")
         got = root.flatten(sep)
         exp = expected_pairs(root, sep, [root.name] if root.name is not None else [], dict_by_name=True)
         op = (info.get("op") or {}).get("op") if not info.get("init") else "init:" + ex.case["init"]["route"]
         if Counter(got) != Counter(exp):
             fails.append({"clause": "keys-are-positions", "step": info["i"], "op": op,
                           "expected": sorted(map(list, exp)), "observed": sorted(map(list, got))})
+        elif name_path_dup(ex) is not None:
+            fails.append({"clause": "name-paths-unique", "step": info["i"], "op": op,
+                          "expected": "only the members of one Array/MultiValue share a name path",
+                          "observed": name_path_dup(ex)})
         elif not slots_positional(ex):
             fails.append({"clause": "slots-named-by-position", "step": info["i"], "op": op,
                           "expected": "slot i of every List is named str(i)",
                           "observed": [[getattr(getattr(m, "parent", None), "name", None) for m in l] for l in _lists_of(ex)]})
+        for f in fails:
+            f["causes"] = list(causes)
         return fails
     return check
 
@@ -268,6 +326,20 @@ def gen_tree_case(rng):
         if maps:
             o["m"] = G.gen_map_op(rng, rng.choice(maps), valid=not hostile)
         ops.append(o)
+    if lists and rng.random() < 0.12:
+        # REJECTED calls handed an element that already is a member (of the same List or of another sequence of the
+        # tree): `lst[len(lst)] = lst[0]`, `lst['1'] = other[2]`, `lst.insert('0', lst[1])` — nothing may move, flatten()
+        # and every later call must still see every member at its position.  Oracle-only (no aliasing in the Lean model).
+        case["nomodel"] = True
+        case["why_nomodel"] = "Element argument is an existing member (aliasing)"
+        for _ in range(rng.choice([1, 1, 2, 3])):
+            a = {"member": rng.randint(0, 4), "same": rng.random() < 0.6, "of": rng.randint(0, 5)}
+            bad = rng.choice(REJECTED_INDEXES)
+            if isinstance(bad, int) or rng.random() < 0.7:
+                op = {"op": "setitem", "i": bad, "a": a}
+            else:
+                op = {"op": "insert", "i": bad, "a": a}       # a non-integer index: TypeError before anything is placed
+            ops.insert(rng.randint(0, len(ops)), {"t": rng.randint(0, 7), "s": op})
     case["ops"] = ops
     if G.has_flat(case):
         case["nomodel"] = True
@@ -385,7 +457,37 @@ class C07(Property):
             {"t": "dict", "name": "a", "opt": False, "mode": "dense", "fields": [S("_b")]}]},
             "kinds": kinds, "sep": "__", "value": {"d": [["a_", {"d": [["b", {"s": "1"}]]}], ["a", {"d": [["_b", {"s": "2"}]]}]]},
             "muts": []}
-        return [joined_in_dict, renumber, stepped, negpop, overlap]
+        # tree-history family
+        def TS(k, cid, name=None, subs=()):
+            return {"cid": cid, "k": k, "name": name, "opt": False, "policy": "subset", "minreq": False, "isa": [],
+                    "default": None, "subs": list(subs)}
+        li = TS("list", 1, "l", [TS("integer", 2, "i")])
+        # seeded C07-setitem-new-slot-before-index-check: a REJECTED `lst[len(lst)] = lst[0]` must not re-parent the member
+        rejected_alias = {"family": "tree-history", "sep": "_", "schema": li, "nomodel": True,
+                          "init": {"route": "ctor_value", "value": {"l": [10, 20, 30]}},
+                          "ops": [{"t": 0, "s": {"op": "setitem", "i": 3, "a": {"member": 0, "same": True}}},
+                                  {"t": 0, "s": {"op": "append", "a": {"v": 40}}},
+                                  {"t": 0, "s": {"op": "setitem", "i": "1", "a": {"member": 2, "same": True}}},
+                                  {"t": 0, "s": {"op": "pop", "i": 0}}]}
+        lod = TS("list", 1, "l", [TS("dict", 2, None, [TS("string", 3, "x"), TS("list", 4, "n", [TS("integer", 5)])])])
+        dval = lambda x, ns: {"d": [["x", x], ["n", {"l": ns}]]}
+        # the history of Proofs/C07TreeExamples.lean (insert(-1, ...), sort, del l[::2]) plus rejected calls in between
+        nested = {"family": "tree-history", "sep": "_", "schema": lod,
+                  "init": {"route": "ctor_value", "value": {"l": [dval("b", [1, 2]), dval("a", [3]), dval("c", [])]}},
+                  "ops": [{"t": 0, "s": {"op": "insert", "i": -1, "a": {"v": dval("0", [9])}}},
+                          {"t": 0, "s": {"op": "pop", "i": 7}},
+                          {"t": 0, "s": {"op": "sort", "key": "field", "field": "x", "rev": False}},
+                          {"t": 0, "s": {"op": "setitem", "i": 9, "a": {"v": dval("q", [])}}},
+                          {"t": 0, "s": {"op": "delslice", "sl": [None, None, 2]}},
+                          {"t": 0, "s": {"op": "remove", "a": {"v": dval("zz", [5])}}},
+                          {"t": 2, "s": {"op": "insert", "i": -1, "a": {"v": 7}}},
+                          {"t": 2, "s": {"op": "reverse"}}]}
+        # open KF-C07-b: a rejected insert (non-integer index) of an existing member re-parents it to an orphan slot
+        kf_b = {"family": "tree-history", "sep": "_", "schema": li, "nomodel": True,
+                "init": {"route": "ctor_value", "value": {"l": [10, 20, 30]}},
+                "ops": [{"t": 0, "s": {"op": "insert", "i": "1", "a": {"member": 0, "same": True}}},
+                        {"t": 0, "s": {"op": "append", "a": {"v": 40}}}]}
+        return [joined_in_dict, renumber, stepped, negpop, overlap, rejected_alias, nested, kf_b]
 
     def generate(self, rng, n, tier):
         yield from self._generate_flat(rng, n, tier)
@@ -430,7 +532,7 @@ class C07(Property):
         key = canon(case)
         if self._tree_cache[0] == key:
             return self._tree_cache[1]
-        ex = G.Exec(case, tree_view(case["sep"]), tree_check(case["sep"]))
+        ex = TreeExec(case, tree_view(case["sep"]), tree_check(case["sep"]))
         obs = ex.run()
         self._tree_cache = (key, (obs, ex.failures))
         return self._tree_cache[1]
@@ -553,6 +655,19 @@ class C07(Property):
         return fails
 
     def classify(self, case, failure):
+        if is_tree(case) and failure.get("clause") in ("keys-are-positions", "name-paths-unique", "slots-named-by-position"):
+            # KF-C07-b: `List.insert(<non-integer index>, <element that already is a member>)` raises TypeError AFTER
+            # `_new_slot()` re-parented the member to a fresh, never stored slot named str(len(self)).
+            # KF-C07-c: `Sequence.__setitem__` / `Sequence.insert` (Array, MultiValue) set `value.parent = self` BEFORE
+            # `list.__setitem__` / `list.insert` reject the index.
+            # Class: such a rejected call (recognised by its shape when it ran: target class, op, index, argument is an
+            # existing member) happened at or before the failing step.  A failure without such a call — e.g. after a
+            # rejected item assignment on a LIST — is not in either class.
+            causes = failure.get("causes") or []
+            if "list-insert-nonint-index-of-member" in causes:
+                return "KF-C07-b"
+            if "array-rejected-placement-of-member" in causes:
+                return "KF-C07-c"
         # KF-C07-a predicts: the separator overlaps with the names (decided from the schema alone), the two
         # elements sit on DIFFERENT name paths, and the very same tree has unique keys once the separator
         # is one that occurs in no name — so a key that loses a path component is still reported
